@@ -1,5 +1,6 @@
 import CifModel.Lemmas.ParserDefectSeg
 import CifModel.Lemmas.DefectChars
+import CifModel.Lemmas.ParserDefectLex
 /-
   Lemmas/ParserDefectDie (group gW) — property C12 under the ABORT-ON-ERROR handler (`dieAll`, cif_parse_error_die: the answer to a
   report is its code).  C03_die_is_first gives the return value and the log; what is added here is the CONTENT: the target CIF
@@ -265,6 +266,96 @@ theorem die_dup_header_name (o : Opts) {path : Path} {put : Container → Cif} {
   unfold parseLoop
   simp only [bind_eq, pure_eq, P.bind, P.pure, h1, hstep]
   simp [hw]
+
+/-! ### defects inside a VALUE: the report is made while the value is parsed — the item is not stored -/
+
+/-- parse_value, started in front of the tokens `T`, is left through the abort-on-error handler -/
+def DieVal (o : Opts) (T : List TokSpec) (C : Code) (j need : Nat) (follow : List TokSpec → Prop) : Prop :=
+  ∀ (rest : List TokSpec) (s : PS) (fuel : Nat) (w : W), need ≤ fuel → follow rest → Feeds o s (T ++ rest) →
+    ∃ r, parseValue o fuel s dieAll w = .abort (C : Int) { w with log := r :: w.log } ∧ r.code = C ∧ RepAt o s j r
+
+/-- an item `_n <value>` whose value parse is aborted -/
+theorem die_item_of_value (o : Opts) {path : Path} {put : Container → Cif} {code : Str} (hv : View o path put code) (isBlock : Bool)
+    (n : Str) (ty : TokType) (tx : Str) (T : List TokSpec) (fs : List Container) (ls : List Loop) (C : Code) (j need : Nat)
+    (follow : List TokSpec → Prop) (hname : wfName n = true) (hfresh : o.norm n ∉ normNames o ls)
+    (hstart : isValueStart ty = true) (hkey : isKeyTok ty = false) (hval : DieVal o ((ty, tx) :: T) C j need follow) :
+    DieSeg o path put code isBlock ((.name, n) :: (ty, tx) :: T) fs ls fs ls C (1 + j) (need + 1) follow := by
+  intro rest s fuel w hw hf hfol hF
+  obtain ⟨f, rfl⟩ : ∃ f, fuel = f + 1 := ⟨fuel - 1, by omega⟩
+  simp only [wfName, Bool.and_eq_true] at hname
+  simp only [List.cons_append] at hF
+  obtain ⟨t, s1, hty, htx, hn, ht, hr⟩ := hF.inv
+  have a1 : At o s 1 (consume s1) := (At.refl o s).step hn ht
+  obtain ⟨t2, s2, hty2, htx2, hn2, ht2, hr2⟩ := hr.inv
+  have hpend : Feeds o s2 (((ty, tx) :: T) ++ rest) := by
+    simp only [List.cons_append]; rw [← hty2, ← htx2]; exact Feeds.pending ht2 hr2
+  obtain ⟨r, h1, hc, hrep⟩ := hval rest s2 f w (by omega) hfol hpend
+  refine ⟨r, ?_, hc, RepAt.shift (a1.peek hn2 ht2) hrep⟩
+  conv => lhs; rw [elemsLoop]
+  simp only [bind_eq, pure_eq, P.bind, P.pure, hn, hty, htx, cstr_noNul hname.2,
+    itemExists_false o hv n fs ls dieAll w hw hname.1 hfresh, Bool.false_eq_true, if_false, hname.1, Bool.not_true, and_false]
+  unfold parseItem
+  have hk : isKeyTok t2.ty = false := by rw [hty2]; exact hkey
+  have hs : isValueStart t2.ty = true := by rw [hty2]; exact hstart
+  simp only [bind_eq, pure_eq, P.bind, P.pure, hn2, hk, hs, if_true, Bool.false_eq_true, if_false, h1]
+  simp [hw]
+
+/-- the elements of a list up to a token that ends the list without closing it, abort-on-error handler -/
+theorem values_open_die (o : Opts) : ∀ (vs : List Val) (ty : TokType) (tx : Str) (ts : List TokSpec) (s : PS) (fuel : Nat) (w : W)
+    (acc : List V), wfVals o vs = true → szVals vs + 1 ≤ fuel → isTerminator ty = true →
+    Feeds o s (valsToks vs ++ (ty, tx) :: ts) →
+    ∃ r, listLoop o fuel s acc dieAll w = .abort (CIF_MISSING_DELIM : Int) { w with log := r :: w.log }
+      ∧ r.code = CIF_MISSING_DELIM ∧ RepAt o s (valsToks vs).length r
+  | [], ty, tx, ts, s, fuel, w, acc, _, hf, hterm, hF => by
+    obtain ⟨f, rfl⟩ : ∃ f, fuel = f + 1 := ⟨fuel - 1, by omega⟩
+    simp only [valsToks, List.nil_append] at hF
+    obtain ⟨t, s', hty, htx, hn, ht, hr⟩ := hF.inv
+    simp only [isTerminator, Bool.not_eq_true', Bool.or_eq_false_iff, beq_eq_false_iff_ne, ne_eq] at hterm
+    have a0 : At o s (valsToks []).length s' := ((At.refl o s).peek hn ht).cast (by simp [valsToks])
+    refine ⟨⟨CIF_MISSING_DELIM, s'.scan.line, s'.scan.col - t.text.length⟩, ?_, rfl, ⟨s', a0, rfl⟩⟩
+    rw [listLoop]
+    simp only [bind_eq, pure_eq, P.bind, P.pure, hn, hty, hterm.1.1.1, hterm.1.1.2, hterm.1.2, Bool.false_eq_true, if_false,
+      report_die CIF_MISSING_DELIM _ _ w (by decide)]
+  | v :: vs, ty, tx, ts, s, fuel, w, acc, hw, hf, hterm, hF => by
+    obtain ⟨f, rfl⟩ : ∃ f, fuel = f + 1 := ⟨fuel - 1, by omega⟩
+    simp only [wfVals, Bool.and_eq_true] at hw
+    simp only [szVals] at hf
+    have hp := szVal_pos v
+    obtain ⟨vty, vtx, vts, hvt, hstart, hkey⟩ := valToks_head v
+    simp only [valsToks, List.append_assoc] at hF
+    have hF' := hF
+    rw [hvt, List.cons_append] at hF'
+    obtain ⟨t, s', hty, htx, hn, ht, hr⟩ := hF'.inv
+    have hpend : Feeds o s' (valToks v ++ (valsToks vs ++ (ty, tx) :: ts)) := by
+      rw [hvt, List.cons_append, ← hty, ← htx]; exact Feeds.pending ht hr
+    obtain ⟨s1, h1, h2, ha1⟩ := value_structure_at o v _ s' f dieAll w hw.1 (by omega) hpend
+    obtain ⟨r, h3, hc, hrep⟩ := values_open_die o vs ty tx ts s1 f w (acc ++ [denoteVal o.dia o.normKey v]) hw.2 (by omega) hterm h2
+    have a1 : At o s (valToks v).length s1 := (((At.refl o s).peek hn ht).trans ha1).cast (by omega)
+    refine ⟨r, ?_, hc, (RepAt.shift a1 hrep).cast (by simp [valsToks])⟩
+    rw [listLoop]
+    simp only [bind_eq, pure_eq, P.bind, P.pure, hn, hty, hkey, hstart, if_true, h1, h3, Bool.false_eq_true, if_false]
+
+/-- an unterminated list as a value: `[ v₁ … vₖ` followed by a token that cannot continue the list -/
+theorem dieVal_open_list (o : Opts) (btx : Str) (vs : List Val) (hw : wfVals o vs = true) :
+    DieVal o ((.olist, btx) :: valsToks vs) CIF_MISSING_DELIM (1 + (valsToks vs).length) (szVals vs + 2) termFollow := by
+  intro rest s fuel w hf hfol hF
+  obtain ⟨ty, tx, ts, rfl, hterm⟩ := hfol
+  obtain ⟨f, rfl⟩ : ∃ f, fuel = f + 1 := ⟨fuel - 1, by omega⟩
+  simp only [List.cons_append] at hF
+  obtain ⟨t, s1, hty, _, hn, htk, hr⟩ := hF.inv
+  obtain ⟨r, h1, hc, hrep⟩ := values_open_die o vs ty tx ts (consume s1) f w [] hw (by omega) hterm hr
+  refine ⟨r, ?_, hc, RepAt.shift ((At.refl o s).step hn htk) hrep⟩
+  rw [parseValue]
+  simp only [bind_eq, pure_eq, P.bind, P.pure, hn, hty, h1]
+
+/-- **an item whose list value is not closed**, abort-on-error handler: the item is not stored -/
+theorem die_missing_delim_list (o : Opts) {path : Path} {put : Container → Cif} {code : Str} (hv : View o path put code)
+    (isBlock : Bool) (n btx : Str) (vs : List Val) (fs : List Container) (ls : List Loop)
+    (hname : wfName n = true) (hfresh : o.norm n ∉ normNames o ls) (hw : wfVals o vs = true) :
+    DieSeg o path put code isBlock ((.name, n) :: (.olist, btx) :: valsToks vs) fs ls fs ls CIF_MISSING_DELIM
+      (1 + (1 + (valsToks vs).length)) (szVals vs + 2 + 1) termFollow :=
+  die_item_of_value o hv isBlock n .olist btx (valsToks vs) fs ls CIF_MISSING_DELIM _ _ termFollow hname hfresh rfl rfl
+    (dieVal_open_list o btx vs hw)
 
 /-! ### the defect at any depth of nesting -/
 
